@@ -55,4 +55,5 @@ def run(chk, replay=None):
     C.tableless_kwargs_check(chk)
     C.loaded_samples_check(chk)
     C.histories_check(chk, drv)
+    C.alive_across_load_check(chk)
     return chk.finish()
